@@ -294,6 +294,7 @@ func RunScenario(t *testing.T, s *Scenario, chk Checker, keepLog bool) (rep *Run
 				pkg = h.Pkg
 			}
 			res := env.RunRequest(pkg, &h.Req, nil)
+			dumpMsgs(res)
 			rep.Requests++
 			if res.Outcome != OutDone {
 				// hang or step budget: kill the node so that the bubble can end
@@ -335,3 +336,20 @@ func isInvalidArgument(res *RunResult) bool {
 }
 
 func sortStrings(s []string) []string { sort.Strings(s); return s }
+
+func dumpMsgs(res *RunResult) {
+	if os.Getenv("SIM_DUMPMSGS") != "1" {
+		return
+	}
+	for _, m := range res.Msgs {
+		switch m.Kind {
+		case "data":
+			fmt.Printf("MSG data %d %s payload=%q finalH=%d after=%v\n", m.Num, m.ID, m.Payload, m.FinalH, m.AfterErr)
+		case "undo":
+			fmt.Printf("MSG undo lastvalid=%d %s\n", m.UndoNum, m.UndoID)
+		default:
+			fmt.Printf("MSG %s\n", m.Kind)
+		}
+	}
+	fmt.Printf("RESULT err=%v outcome=%v\n", res.Err, res.Outcome)
+}
